@@ -19,6 +19,9 @@ import (
 //nolint:gochecknoglobals
 var (
 	asciiRegex = regexp.MustCompile("^[A-Za-z0-9_-]+$")
+
+	// scheme ":" followed by unreserved / reserved characters and percent-encodings, with at most one '#' (RFC 3986)
+	uriRegex = regexp.MustCompile(`^[A-Za-z][A-Za-z0-9+.-]*:([A-Za-z0-9\-._~:/?\[\]@!$&'()*+,;=]|%[0-9A-Fa-f]{2})*(#([A-Za-z0-9\-._~:/?\[\]@!$&'()*+,;=]|%[0-9A-Fa-f]{2})*)?$`)
 )
 
 const (
@@ -283,8 +286,19 @@ func validateURI(uri string) error {
 		return errors.New("service endpoint URI is empty")
 	}
 
-	if _, err := url.ParseRequestURI(uri); err != nil {
+	u, err := url.ParseRequestURI(uri)
+	if err != nil {
 		return fmt.Errorf("service endpoint '%s' is not a valid URI: %s", uri, err.Error())
+	}
+
+	// ParseRequestURI parses an HTTP request target: it also accepts '*' and paths without a scheme, and (like
+	// the rest of net/url) characters that RFC 3986 does not allow in a URI
+	if !u.IsAbs() {
+		return fmt.Errorf("service endpoint '%s' is not a valid URI: missing scheme", uri)
+	}
+
+	if !uriRegex.MatchString(uri) {
+		return fmt.Errorf("service endpoint '%s' is not a valid URI: invalid character", uri)
 	}
 
 	return nil
